@@ -1,14 +1,16 @@
 // Contracts on kuznyechik/src/sse2/backends.rs (default build on x86-64): the SSE2 table-driven backend on __m128i.
 // A block is the __m128i holding the 16 octets in printed order (byte lane k = octet k).  The SSE2 intrinsics are
 // executed by Kani from their definitions in core::arch (portable-SIMD platform intrinsics), not modelled.
-// Same decomposition as soft.rs: `transform` is proved for EVERY table (symbolic 64 KiB table parameter), the real
-// tables' contents by fused_tables.*, linearity by lemmas.*; callers are proved against `spec_transform`.
+// Decomposition: c_transform (`transform` = XOR of the sixteen table entries selected by the block's bytes, for every
+// table content), fused_tables.* (contents of the two real tables), lemmas.* (linearity of L, L^-1) give the contract
+//   transform(b, &ENC_TABLE) = L(S(b)),  transform(b, &DEC_TABLE) = L^-1(S^-1(b))     (`spec_transform`)
+// against which every caller is proved.
 //
 // @module file=kuznyechik/src/sse2/backends.rs
 use super::*;
 use crate::__vp_lemmas::{spec_dec_dk, spec_inv_keys};
-use crate::fused_tables::__vp_fused_tables::entry;
 use bcref::kuznyechik as kz;
+use crate::__vp_lemmas::ruf;
 
 pub fn bytes(x: __m128i) -> [u8; 16] { unsafe { core::mem::transmute(x) } }
 pub fn word(b: &[u8; 16]) -> __m128i { unsafe { core::mem::transmute(*b) } }
@@ -18,18 +20,6 @@ pub fn any_round_keys() -> RoundKeys {
     unsafe { core::mem::transmute(raw) }
 }
 pub fn raw_keys(k: &RoundKeys) -> [[u8; 16]; 10] { unsafe { core::mem::transmute(*k) } }
-
-/// XOR_i T[i][b_i]
-pub fn spec_transform_table(block: __m128i, t: &Table) -> [u8; 16] {
-    let b = bytes(block);
-    let mut acc = [0u8; 16];
-    let mut i = 0;
-    while i < 16 {
-        acc = kz::xor(&acc, &entry(t, i, b[i]));
-        i += 1;
-    }
-    acc
-}
 
 /// contract of `transform` on the two real tables
 pub unsafe fn spec_transform(block: __m128i, table: &Table) -> __m128i {
@@ -41,14 +31,58 @@ pub unsafe fn spec_transform(block: __m128i, table: &Table) -> __m128i {
     }
 }
 
-// @ob name=c_transform props=C07,C20 fn=kuznyechik::sse2::backends::transform timeout=900
+// `transform` for EVERY table content: the sixteen aligned 16-byte loads are replaced by an uninterpreted function of the
+// byte offset of the load inside the table (`luf::at`; equal offsets give equal data, otherwise unconstrained), so the
+// table is never read; the model also asserts that each load is 16-byte aligned and inside the table.  (A symbolic or
+// the real 64 KiB table read at symbolic offsets exhausts 32 GB.)  What is proved: the result is the XOR of the entries
+// (i, b_i), i = 0..15, entry (i, v) being the 16 bytes at offset 16 * (256 * i + v).
+pub static mut BASE: usize = 0;
+pub mod luf {
+    pub const MAXC: usize = 40;
+    pub static mut IN: [usize; MAXC] = [0; MAXC];
+    pub static mut OUT: [[u8; 16]; MAXC] = [[0; 16]; MAXC];
+    pub static mut N: usize = 0;
+    #[allow(static_mut_refs)]
+    pub fn at(off: usize) -> [u8; 16] {
+        unsafe {
+            let mut y: [u8; 16] = kani::any();
+            let mut found = false;
+            let mut i = 0;
+            while i < N {
+                if !found && IN[i] == off { y = OUT[i]; found = true; }
+                i += 1;
+            }
+            assert!(N < MAXC);
+            IN[N] = off; OUT[N] = y; N += 1;
+            y
+        }
+    }
+}
+#[allow(static_mut_refs)]
+unsafe fn model_load(p: *const __m128i) -> __m128i {
+    let off = (p as usize).wrapping_sub(BASE);
+    assert!(off % 16 == 0 && off <= 65536 - 16); // inside the table, aligned
+    word(&luf::at(off))
+}
+
+// @ob name=c_transform props=C07,C20 fn=kuznyechik::sse2::backends::transform timeout=300
 #[kani::proof]
-#[kani::unwind(17)]
+#[kani::stub(core::arch::x86_64::_mm_load_si128, model_load)]
+#[kani::unwind(41)]
 fn c_transform() {
-    let t: Table = crate::utils::Align16(kani::any());
+    let which: bool = kani::any();
+    let t: &Table = if which { &ENC_TABLE } else { &DEC_TABLE };
+    unsafe { BASE = t.0.as_ptr() as usize; }
     let b = any_word();
-    let r = unsafe { transform(b, &t) };
-    assert!(kz::eq(&bytes(r), &spec_transform_table(b, &t)));
+    let r = unsafe { transform(b, t) };
+    let bb = bytes(b);
+    let mut acc = [0u8; 16];
+    let mut i = 0;
+    while i < 16 {
+        acc = kz::xor(&acc, &luf::at(16 * (256 * i + bb[i] as usize)));
+        i += 1;
+    }
+    assert!(kz::eq(&bytes(r), &acc));
 }
 
 // @ob name=c_sub_bytes props=C07,C20 fn=kuznyechik::sse2::backends::sub_bytes timeout=300
@@ -58,4 +92,94 @@ fn c_sub_bytes() {
     let b = any_word();
     assert!(kz::eq(&bytes(unsafe { sub_bytes(b, &P) }), &kz::s(&bytes(b))));
     assert!(kz::eq(&bytes(unsafe { sub_bytes(b, &P_INV) }), &kz::s_inv(&bytes(b))));
+}
+
+// ---- uninterpreted stand-ins with the real signatures, for the plumbing obligations in api_sse2.rs
+include!("@VERIF@/contracts/kuznyechik/uf_common.inc");
+pub fn uf_expand_enc_keys(key: &Key) -> RoundKeys { unsafe { core::mem::transmute(ufs::k2rk(&key.0)) } }
+pub fn uf_inv_enc_keys(enc: &RoundKeys) -> RoundKeys {
+    unsafe { core::mem::transmute(ufs::rk2rk(&core::mem::transmute::<RoundKeys, [u8; 160]>(*enc))) }
+}
+pub unsafe fn uf_transform(block: __m128i, table: &Table) -> __m128i {
+    word(&ufs::blk(&bytes(block), &[0u8; 16], table as *const Table as usize))
+}
+
+// ---- callers of transform, proved against its contract on the two real tables
+// @ob name=c_expand_enc_keys props=C07,C20 fn=kuznyechik::sse2::backends::expand_enc_keys uses=c_transform,c_enc_table_lo,c_enc_table_hi,c_ls_table,l_l_decomp,c_keygen,c_cref_lo,c_cref_hi timeout=900
+#[kani::proof]
+#[kani::stub(transform, spec_transform)]
+#[kani::stub(bcref::kuznyechik::l, ruf::l)]
+#[kani::stub(bcref::kuznyechik::l_inv, ruf::l_inv)]
+#[kani::stub(bcref::kuznyechik::c, crate::utils::__vp_utils::cref_lookup)]
+#[kani::unwind(151)]
+fn c_expand_enc_keys() {
+    let key: [u8; 32] = kani::any();
+    let rk = raw_keys(&expand_enc_keys(&cipher::Array(key)));
+    let spec = kz::key_schedule(&key);
+    let mut i = 0;
+    while i < 10 {
+        assert!(kz::eq(&rk[i], &spec[i]));
+        i += 1;
+    }
+}
+
+// for every value of the ten encryption keys: uses S^-1(S(x)) = x
+// @ob name=c_inv_enc_keys props=C07,C20 fn=kuznyechik::sse2::backends::inv_enc_keys uses=c_transform,c_dec_table_lo,c_dec_table_hi,c_slinv_table,l_linv_decomp,c_sub_bytes timeout=900
+#[kani::proof]
+#[kani::stub(transform, spec_transform)]
+#[kani::stub(bcref::kuznyechik::l, ruf::l)]
+#[kani::stub(bcref::kuznyechik::l_inv, ruf::l_inv)]
+#[kani::stub(bcref::kuznyechik::c, crate::utils::__vp_utils::cref_lookup)]
+#[kani::unwind(151)]
+fn c_inv_enc_keys() {
+    let enc = any_round_keys();
+    let dec = raw_keys(&inv_enc_keys(&enc));
+    let spec = spec_inv_keys(&raw_keys(&enc));
+    let mut i = 0;
+    while i < 10 {
+        assert!(kz::eq(&dec[i], &spec[i]));
+        i += 1;
+    }
+}
+
+pub fn enc_block(rk: &RoundKeys, b: [u8; 16]) -> [u8; 16] {
+    let inp = cipher::Array(b);
+    let mut out = cipher::Array([0u8; 16]);
+    cipher::BlockCipherEncBackend::encrypt_block(&EncBackend(rk), InOut::from((&inp, &mut out)));
+    out.0
+}
+pub fn dec_block(rk: &RoundKeys, b: [u8; 16]) -> [u8; 16] {
+    let inp = cipher::Array(b);
+    let mut out = cipher::Array([0u8; 16]);
+    cipher::BlockCipherDecBackend::decrypt_block(&DecBackend(rk), InOut::from((&inp, &mut out)));
+    out.0
+}
+
+// for every value of the ten round keys and every block
+// @ob name=c_enc_block props=C07,C20 fn=kuznyechik::sse2::backends::EncBackend::encrypt_block uses=c_transform,c_enc_table_lo,c_enc_table_hi,c_ls_table,l_l_decomp timeout=900
+#[kani::proof]
+#[kani::stub(transform, spec_transform)]
+#[kani::stub(bcref::kuznyechik::l, ruf::l)]
+#[kani::stub(bcref::kuznyechik::l_inv, ruf::l_inv)]
+#[kani::stub(bcref::kuznyechik::c, crate::utils::__vp_utils::cref_lookup)]
+#[kani::unwind(151)]
+fn c_enc_block() {
+    let rk = any_round_keys();
+    let b: [u8; 16] = kani::any();
+    assert!(kz::eq(&enc_block(&rk, b), &kz::encrypt_with(&raw_keys(&rk), &b)));
+}
+
+// for every value of the ten decryption words (with dk = spec_inv_keys(K) this is the standard's D under K:
+// lemmas.l_dec_dk_is_standard)
+// @ob name=c_dec_block props=C07,C20 fn=kuznyechik::sse2::backends::DecBackend::decrypt_block uses=c_transform,c_dec_table_lo,c_dec_table_hi,c_slinv_table,l_linv_decomp,c_sub_bytes timeout=900
+#[kani::proof]
+#[kani::stub(transform, spec_transform)]
+#[kani::stub(bcref::kuznyechik::l, ruf::l)]
+#[kani::stub(bcref::kuznyechik::l_inv, ruf::l_inv)]
+#[kani::stub(bcref::kuznyechik::c, crate::utils::__vp_utils::cref_lookup)]
+#[kani::unwind(151)]
+fn c_dec_block() {
+    let dk = any_round_keys();
+    let b: [u8; 16] = kani::any();
+    assert!(kz::eq(&dec_block(&dk, b), &spec_dec_dk(&raw_keys(&dk), &b)));
 }
